@@ -269,6 +269,10 @@ def annotate(R, op, p, outs, before):
 
 
 # ----------------------------------------------------------------------------------------------
+class _StopProgram(Exception):
+    pass
+
+
 class Execution:
     """Result of running a program: model events, observations, and everything the oracle needs."""
 
@@ -281,6 +285,7 @@ class Execution:
         self.opts = {}           # program optimizer id -> (real optimizer, arena indices of its parameters at construction)
         self.error = None
         self.raised_at = None
+        self.unexpected = None   # a step of the program raised where nothing may raise: {"step": ..., "error": ...}
 
 
 def vec2(arr):
@@ -319,115 +324,122 @@ def execute(steps):
 
     try:
         for st in steps:
-            k = st["k"]
-            if k == "leaf":
-                R.active = True
-                data = np.array(st["data"], dtype=np.float64).reshape(tuple(st["shape"]))
-                ctx = sg.no_grad() if st.get("nograd") else None
-                if ctx:
-                    ctx.__enter__()
-                try:
-                    if st.get("param"):
-                        t = impl.nn.Parameter(data, requires_grad=st["req"])
-                    else:
-                        t = sg.Tensor(data, requires_grad=st["req"])
-                finally:
-                    if ctx:
-                        ctx.__exit__(None, None, None)
-                    R.active = False
-                E.pool[st["id"]] = t
-                flush_builds()
-            elif k == "op":
-                args = [E.pool[i] for i in st["args"]]
-                before = len(R.nodes)
-                R.active = True
-                ctx = sg.no_grad() if st.get("nograd") else None
-                if ctx:
-                    ctx.__enter__()
-                try:
-                    outs = ops[st["op"]](args, st.get("p", {}))
-                finally:
-                    if ctx:
-                        ctx.__exit__(None, None, None)
-                    R.active = False
-                annotate(R, st["op"], st.get("p", {}), outs, before)
-                for i, o in zip(st["out"], outs):
-                    E.pool[i] = o
-                flush_builds()
-            elif k == "backward":
-                root = E.pool[st["root"]]
-                R.refresh_owners()
-                R.calls = []
-                seed = np.array(st["seed"], dtype=np.float64).reshape(root.data.shape)
-                if st.get("retain_ctx"):
-                    E.events.append(("SetRetainMode", True)); E.obs.append(None)
-                E.events.append(("Backward", R.idx(root), vec2(seed)))
-                try:
-                    if st.get("retain_ctx"):
-                        with sg.retain_grads():
-                            root.backward(sg.Tensor(seed))
-                    elif st.get("default_seed"):
-                        root.backward()
-                    else:
-                        root.backward(sg.Tensor(seed))
-                except Exception as ex:       # the model says when backward raises (root does not require grad)
-                    E.obs.append("raised"); E.raised_at = len(E.events) - 1; E.error = repr(ex)
-                    break
-                E.obs.append({"bufs": snapshot(R), "log": list(R.calls)})
-                if st.get("retain_ctx"):
-                    E.events.append(("SetRetainMode", False)); E.obs.append(None)
-            elif k == "zero_t":
-                t = E.pool[st["t"]]
-                t.zero_()
-                E.events.append(("ZeroTensor", R.idx(t))); E.obs.append({"bufs": snapshot(R), "log": []})
-            elif k == "zero_mod":
-                m = impl.nn.Module()
-                for j, i in enumerate(st["ps"]):
-                    m.register_parameter("p%d" % j, E.pool[i])
-                m.zero_grad()
-                E.events.append(("ZeroModule", [R.idx(E.pool[i]) for i in st["ps"]])); E.obs.append({"bufs": snapshot(R), "log": []})
-            elif k == "zero_opt":
-                o = impl.optim.SGD([E.pool[i] for i in st["ps"]], lr=0.5)
-                o.zero_grad()
-                E.events.append(("ZeroOptim", [R.idx(E.pool[i]) for i in st["ps"]])); E.obs.append({"bufs": snapshot(R), "log": []})
-            elif k == "mod_new":
-                E.mods[st["m"]] = impl.nn.Module()
-            elif k == "mod_set":          # parent.<name> = child module   (Module.__setattr__ registers it)
-                setattr(E.mods[st["m"]], st["name"], E.mods[st["child"]])
-            elif k == "mod_setp":         # module.<name> = Parameter
-                setattr(E.mods[st["m"]], st["name"], E.pool[st["t"]])
-            elif k == "mod_unset":        # module.<name> = None drops the registration
-                setattr(E.mods[st["m"]], st["name"], None)
-            elif k == "mod_inspect":      # the tree is looked at (summary, len(parameters()), ...)
-                m = E.mods[st["m"]]
-                if st.get("how") == "num_params":
-                    m.num_params()
-                else:
-                    m.parameters()
-            elif k == "zero_tree":        # module.zero_grad() on a real module tree
-                m = E.mods[st["m"]]
-                want = [R.idx(p) for p in reachable_parameters(m)]     # at the time of the call, not through parameters()
-                m.zero_grad()
-                E.events.append(("ZeroModule", want)); E.obs.append({"bufs": snapshot(R), "log": []})
-            elif k == "opt_new":          # optimizer built from module.parameters() now
-                m = E.mods[st["m"]]
-                want = [R.idx(p) for p in reachable_parameters(m)]
-                E.opts[st["o"]] = (impl.optim.SGD(m.parameters(), lr=0.5), want)
-            elif k == "zero_optim":
-                o, want = E.opts[st["o"]]
-                o.zero_grad()
-                E.events.append(("ZeroOptim", want)); E.obs.append({"bufs": snapshot(R), "log": []})
-            elif k == "retain":
-                t = E.pool[st["t"]]
-                E.events.append(("RetainGrad", R.idx(t)))
-                try:
-                    t.retain_grad()
-                except RuntimeError as ex:
-                    E.obs.append("raised"); E.raised_at = len(E.events) - 1; E.error = repr(ex)
-                    break
-                E.obs.append({"bufs": snapshot(R), "log": []})
-            else:
-                raise ValueError(k)
+          try:
+              k = st["k"]
+              if k == "leaf":
+                  R.active = True
+                  data = np.array(st["data"], dtype=np.float64).reshape(tuple(st["shape"]))
+                  ctx = sg.no_grad() if st.get("nograd") else None
+                  if ctx:
+                      ctx.__enter__()
+                  try:
+                      if st.get("param"):
+                          t = impl.nn.Parameter(data, requires_grad=st["req"])
+                      else:
+                          t = sg.Tensor(data, requires_grad=st["req"])
+                  finally:
+                      if ctx:
+                          ctx.__exit__(None, None, None)
+                      R.active = False
+                  E.pool[st["id"]] = t
+                  flush_builds()
+              elif k == "op":
+                  args = [E.pool[i] for i in st["args"]]
+                  before = len(R.nodes)
+                  R.active = True
+                  ctx = sg.no_grad() if st.get("nograd") else None
+                  if ctx:
+                      ctx.__enter__()
+                  try:
+                      outs = ops[st["op"]](args, st.get("p", {}))
+                  finally:
+                      if ctx:
+                          ctx.__exit__(None, None, None)
+                      R.active = False
+                  annotate(R, st["op"], st.get("p", {}), outs, before)
+                  for i, o in zip(st["out"], outs):
+                      E.pool[i] = o
+                  flush_builds()
+              elif k == "backward":
+                  root = E.pool[st["root"]]
+                  R.refresh_owners()
+                  R.calls = []
+                  seed = np.array(st["seed"], dtype=np.float64).reshape(root.data.shape)
+                  if st.get("retain_ctx"):
+                      E.events.append(("SetRetainMode", True)); E.obs.append(None)
+                  E.events.append(("Backward", R.idx(root), vec2(seed)))
+                  try:
+                      if st.get("retain_ctx"):
+                          with sg.retain_grads():
+                              root.backward(sg.Tensor(seed))
+                      elif st.get("default_seed"):
+                          root.backward()
+                      else:
+                          root.backward(sg.Tensor(seed))
+                  except Exception as ex:       # the model says when backward raises (root does not require grad)
+                      E.obs.append("raised"); E.raised_at = len(E.events) - 1; E.error = repr(ex)
+                      break
+                  E.obs.append({"bufs": snapshot(R), "log": list(R.calls)})
+                  if st.get("retain_ctx"):
+                      E.events.append(("SetRetainMode", False)); E.obs.append(None)
+              elif k == "zero_t":
+                  t = E.pool[st["t"]]
+                  t.zero_()
+                  E.events.append(("ZeroTensor", R.idx(t))); E.obs.append({"bufs": snapshot(R), "log": []})
+              elif k == "zero_mod":
+                  m = impl.nn.Module()
+                  for j, i in enumerate(st["ps"]):
+                      m.register_parameter("p%d" % j, E.pool[i])
+                  m.zero_grad()
+                  E.events.append(("ZeroModule", [R.idx(E.pool[i]) for i in st["ps"]])); E.obs.append({"bufs": snapshot(R), "log": []})
+              elif k == "zero_opt":
+                  o = impl.optim.SGD([E.pool[i] for i in st["ps"]], lr=0.5)
+                  o.zero_grad()
+                  E.events.append(("ZeroOptim", [R.idx(E.pool[i]) for i in st["ps"]])); E.obs.append({"bufs": snapshot(R), "log": []})
+              elif k == "mod_new":
+                  E.mods[st["m"]] = impl.nn.Module()
+              elif k == "mod_set":          # parent.<name> = child module   (Module.__setattr__ registers it)
+                  setattr(E.mods[st["m"]], st["name"], E.mods[st["child"]])
+              elif k == "mod_setp":         # module.<name> = Parameter
+                  setattr(E.mods[st["m"]], st["name"], E.pool[st["t"]])
+              elif k == "mod_unset":        # module.<name> = None drops the registration
+                  setattr(E.mods[st["m"]], st["name"], None)
+              elif k == "mod_inspect":      # the tree is looked at (summary, len(parameters()), ...)
+                  m = E.mods[st["m"]]
+                  if st.get("how") == "num_params":
+                      m.num_params()
+                  else:
+                      m.parameters()
+              elif k == "zero_tree":        # module.zero_grad() on a real module tree
+                  m = E.mods[st["m"]]
+                  want = [R.idx(p) for p in reachable_parameters(m)]     # at the time of the call, not through parameters()
+                  m.zero_grad()
+                  E.events.append(("ZeroModule", want)); E.obs.append({"bufs": snapshot(R), "log": []})
+              elif k == "opt_new":          # optimizer built from module.parameters() now
+                  m = E.mods[st["m"]]
+                  want = [R.idx(p) for p in reachable_parameters(m)]
+                  E.opts[st["o"]] = (impl.optim.SGD(m.parameters(), lr=0.5), want)
+              elif k == "zero_optim":
+                  o, want = E.opts[st["o"]]
+                  o.zero_grad()
+                  E.events.append(("ZeroOptim", want)); E.obs.append({"bufs": snapshot(R), "log": []})
+              elif k == "retain":
+                  t = E.pool[st["t"]]
+                  E.events.append(("RetainGrad", R.idx(t)))
+                  try:
+                      t.retain_grad()
+                  except RuntimeError as ex:
+                      E.obs.append("raised"); E.raised_at = len(E.events) - 1; E.error = repr(ex)
+                      break
+                  E.obs.append({"bufs": snapshot(R), "log": []})
+              else:
+                  raise ValueError(k)
+          except _StopProgram:
+            break
+          except Exception as ex:      # nothing else in a program may raise: an engine / module / optimizer call failed
+            E.unexpected = {"step": {k2: v for k2, v in st.items() if k2 != "data"}, "error": "%s: %s" % (type(ex).__name__, str(ex)[:200])}
+            R.active = False
+            break
     finally:
         Recorder.current = None
         impl.reset_modes()
@@ -457,24 +469,33 @@ def arena_of(R):
     out = []
     for nd in R.nodes:
         t = nd["t"]
-        out.append(([R.index[id(c)] for c in t._children], bool(t.requires_grad), t.grad_fn is not None, bool(t._retain_grad)))
+        out.append(([R.index.get(id(c), 4999) for c in t._children], bool(t.requires_grad), t.grad_fn is not None, bool(t._retain_grad)))
     return out
 
 
 def creation_specs(R):
     """What was passed to Tensor.__init__: (gm, requested, children_arg indices)."""
-    return [(nd["gm"], nd["requested"], [R.index[id(c)] for c in nd["children_arg"]]) for nd in R.nodes]
+    return [(nd["gm"], nd["requested"], [R.index.get(id(c), 4999) for c in nd["children_arg"]]) for nd in R.nodes]
 
 
-def weights_of(R):
-    """Per node, per child slot, the 2x2 integer matrix of the local derivative (from the op semantics)."""
+def weights_of(R, problems=None):
+    """Per node, per child slot, the 2x2 integer matrix of the local derivative (from the op semantics).
+    A node whose recorded operands do not reproduce its value under the op semantics (or that records a tensor the harness never
+    saw) violates the wrapper contract `children = inputs`: that is reported in `problems`, not raised."""
     out = []
     for i, nd in enumerate(R.nodes):
         t = nd["t"]
         if not t._children:
             out.append([])
             continue
-        out.append(jacobians(t._operation, [c.data for c in t._children], R.params.get(i), t.data))
+        try:
+            out.append(jacobians(t._operation, [c.data for c in t._children], R.params.get(i), t.data))
+        except Exception as ex:
+            if problems is None:
+                raise
+            problems.append({"node": i, "operation": t._operation, "recorded_operands": len(t._children),
+                             "operands_passed_to_the_op": None, "problem": "%s: %s" % (type(ex).__name__, str(ex)[:160])})
+            out.append([[[0, 0], [0, 0]] for _ in t._children])
     return out
 
 
@@ -607,7 +628,8 @@ def history_case(E):
     arena = arena_of(R)
     # the node as it was when built: retain flags are set later by RetainGrad events
     at_build = [(ch, rq, fn, False) for (ch, rq, fn, rt) in arena]
-    W = weights_of(R)
+    E.problems = []
+    W = weights_of(R, E.problems)
     evs = clist([cevent(e, at_build, W) for e in E.events])
     exp = clist([cobs(o) for o in E.obs])
     specs = clist(["(%s,%s,%s)" % (cb(gm), cb(rq), cnatlist(cs)) for gm, rq, cs in creation_specs(R)])
@@ -637,7 +659,14 @@ def oracle_values(R):
                 deps.append(set())
             ndeps.append(set())
         else:
-            a = spec_apply(t._operation, [vals[c] for c in cs], R.params.get(i))
+            try:
+                a = spec_apply(t._operation, [vals[c] for c in cs], R.params.get(i))
+                if a.size != t.data.size:
+                    raise ValueError("size")
+            except Exception:
+                # the operands handed to Tensor.__init__ are not the op's inputs (contract violation, reported by the arena tie):
+                # the oracle cannot mirror this node; treat its value as recorded, gradient unknown -> constant
+                a = obj_array([Dual(to_frac(x)) for x in t.data.reshape(-1)], t.data.shape)
             d = set()
             for c in cs:
                 d |= deps[c]
@@ -719,6 +748,8 @@ def oracle_history(E):
 
 def oracle_judge(E):
     """Compare the oracle with the observed gradients. Returns None or a description of the first difference."""
+    if getattr(E, "unexpected", None):
+        return {"problem": "a call that must not raise did", **E.unexpected}
     exp = oracle_history(E)
     if E.raised_at is not None and E.events[E.raised_at][0] == "Backward":
         # backward may only refuse a root that was not asked to be tracked
@@ -1107,6 +1138,10 @@ def run_corr(ctx, execs, prefix, chunk=250):
             continue
         tm += [n * chunk + i for i in lists[0]]
         cm += [n * chunk + i for i in lists[1]]
+    # recorded operands that do not reproduce the forward value: a disagreement with the wrapper contract, found harness-side
+    for i, E in enumerate(execs):
+        if getattr(E, "problems", None) and i not in cm:
+            cm.append(i)
     return tm, cm, errs
 
 
@@ -1114,7 +1149,7 @@ def usable(E, limit=1 << 48):
     """Exactness guard: every number a buffer can hold during any of the calls stays far below 2^53."""
     R = E.R
     arena = arena_of(R)
-    W = weights_of(R)
+    W = weights_of(R, [])
     bufs = [None] * len(arena)
     for ev, ob in zip(E.events, E.obs):
         if ev[0] == "Backward":
